@@ -13,7 +13,8 @@ PROP = "C18"
 RULE = ("structural part: every symmetric 0/1 matrix on n<=4 atoms x every element list over {H,C,N,O,S,P,Cl} (n=4 quick: {H,C,N,O}): "
         "the result is symmetric, integer, >=1 exactly on bonded pairs and 0 elsewhere, no exception.  Chemical part: every connected, "
         "neutral, closed-shell multigraph with bond orders 1-3 on <=3 heavy atoms (thorough <=4) from C,N,O,S(II/VI),P(III/V),F,Cl,Br,I "
-        "in standard valences with hydrogens filled in, plus 28 listed aromatic / cumulated / hypervalent systems, each in all atom "
+        "in standard valences with hydrogens filled in, every C4-C5 (thorough C6) hydrocarbon skeleton (cumulated / conjugated / cyclic), "
+        "plus 28 listed aromatic / cumulated / hypervalent systems, each in all atom "
         "orders (<=5 atoms quick, <=6 thorough) or shifts + reversal + transpositions: every atom gets a standard valence, all charges "
         "and unpaired electrons are zero, support equals connectivity.  distinct = (molecule, atom order) calls")
 ASSUMPTIONS = ["standard valences: H1 C4 N3 O2 F/Cl/Br/I 1 S{2,6} P{3,5}; the Kekule structure itself is not compared",
@@ -30,6 +31,9 @@ def items(tier, seed):
     mols = M.enumerated(3 if tier == "quick" else 4)
     for lo in range(0, len(mols), 40):
         out.append({"part": "chem", "lo": lo, "hi": min(len(mols), lo + 40), "tier": tier})
+    hc = M.hydrocarbons(5 if tier == "quick" else 6)
+    for lo in range(0, len(hc), 10):
+        out.append({"part": "hydrocarbons", "lo": lo, "hi": min(len(hc), lo + 10), "tier": tier})
     names = sorted(M.listed())
     for nm in names:
         out.append({"part": "listed", "name": nm, "tier": tier})
@@ -116,6 +120,9 @@ def run_item(item):
     if item["part"] == "chem":
         mols = M.enumerated(3 if tier == "quick" else 4)[item["lo"]:item["hi"]]
         named = [(mol_id(m), m) for i, m in enumerate(mols)]
+    elif item["part"] == "hydrocarbons":
+        mols = M.hydrocarbons(5 if tier == "quick" else 6)[item["lo"]:item["hi"]]
+        named = [(mol_id(m), m) for m in mols]
     else:
         named = [(item["name"], M.listed()[item["name"]])]
     for name, (els, bo) in named:
